@@ -269,6 +269,14 @@ def run(tier: str) -> int:
         base = [c for c in fam if c["atoms"] == sorted(c["atoms"])][0]
         xn = _mk(cls, base["atoms"], None, idmap)
         sample = fam if tier == "thorough" or len(fam) < 800 else rnd.sample(fam, 600)
+        hn = hash(xn)
+        for c in sample[:400]:
+            yn = _mk(cls, c["atoms"], None, idmap)
+            n_none += 1
+            if not ((xn == yn) is True and hash(yn) == hn):
+                rep.violation(f"C04|{n}|parity-none-pair|unequal-or-different-hash",
+                              f"{n}: two descriptors with unspecified parity over the same atoms are unequal or hash differently",
+                              {"x": [base["atoms"], None], "y": [c["atoms"], None], "idmap": idmap})
         for c in sample:
             y = _mk(cls, c["atoms"], c["par"], idmap)
             n_none += 1
